@@ -1,12 +1,80 @@
 /- Driver operations of property C17 (ops are named "c17.<name>"). Core + Lean.Data.Json only. -/
 import Reamber.Util.Json
+import Reamber.Model.FullLN
+import Reamber.Spec.FullLN
 
 open Lean Reamber.J
 
 namespace Reamber.C17
 
-def handle (op : String) (_j : Json) : Except String Json :=
+open Reamber.FullLN
+
+/-- a row on the wire: `[offset, column, length | null]` (a two-element array is a row without length) -/
+def rowOf? (j : Json) : Except String Row :=
+  match j with
+  | Json.arr #[o, c] => do .ok ⟨← ratOf? o, ← intOf? c, none⟩
+  | Json.arr #[o, c, l] => do .ok ⟨← ratOf? o, ← intOf? c, ← optOf? ratOf? l⟩
+  | _ => .error s!"not a row: {j}"
+
+def rowToJson (r : Row) : Json :=
+  Json.arr #[ratToJson r.offset, intToJson r.column, optToJson ratToJson r.length]
+
+def rowsToJson (l : List Row) : Json := listToJson rowToJson l
+
+/-- every output the model can produce for ONE column when ties are ordered differently: the stable
+order with each note of the last tie group moved to the end (built from the *model's* `processGroup`) -/
+def variants (gap thr : Rat) (rows : List Row) : List (List Row) :=
+  let s := sortByOffset rows
+  match s.getLast? with
+  | none => [[]]
+  | some last =>
+    (List.range s.length).filterMap (fun j =>
+      match s[j]? with
+      | some r => if r.offset == last.offset then some (processGroup gap thr (s.eraseIdx j ++ [r])) else none
+      | none => none)
+
+/-- smallest distance of a threshold comparison from its boundary (`inv_length - thres`), over all columns -/
+def margins (gap thr : Rat) (rows : List Row) : List Rat :=
+  let s := sortByOffset rows
+  ((groups s).map (fun g =>
+    (shiftUp (diff (g.map (·.offset)))).filterMap (fun d => d.map (fun d => d - gap - thr)))).flatten
+
+def handle (op : String) (j : Json) : Except String Json :=
   match op with
+  | "c17.model" => do
+    let gap ← getRat j "gap"
+    let thr ← getRat j "thr"
+    let scalar ← getBool j "scalar"
+    let extras ← getArr rowOf? j "extras"
+    let hits ← getArr rowOf? j "hits"
+    let holds ← getArr rowOf? j "holds"
+    let m : MapM Unit := ⟨extras, hits, holds, ()⟩
+    match fullLn scalar gap thr m with
+    | .ok r => .ok (okJson (obj [("hits", rowsToJson r.hits), ("holds", rowsToJson r.holds),
+                                  ("extras", rowsToJson r.extras)]))
+    | .error e => .ok (errJson e.toString)
+  | "c17.variants" => do
+    let gap ← getRat j "gap"
+    let thr ← getRat j "thr"
+    let rows ← getArr rowOf? j "rows"
+    .ok (okJson (listToJson rowsToJson (variants gap thr rows)))
+  | "c17.spec" => do
+    let gap ← getRat j "gap"
+    let thr ← getRat j "thr"
+    let inp ← getArr rowOf? j "inp"
+    let out ← getArr rowOf? j "out"
+    .ok (okJson (obj [("spec", Json.bool (specB gap thr inp out)),
+                      ("conservation", Json.bool (conservationB inp out)),
+                      ("no_overlap", Json.bool (noOverlapB gap out))]))
+  | "c17.margins" => do
+    let gap ← getRat j "gap"
+    let thr ← getRat j "thr"
+    let rows ← getArr rowOf? j "rows"
+    .ok (okJson (listToJson ratToJson (margins gap thr rows)))
+  | "c17.games" =>
+    .ok (okJson (listToJson (fun g : GameInfo =>
+      obj [("name", Json.str g.name), ("scalar", Json.bool g.scalarDefaults),
+           ("extra", listToJson (fun p : String × Bool => Json.arr #[Json.str p.1, Json.bool p.2]) g.extraLists)]) games))
   | _ => .error s!"unknown op {op}"
 
 end Reamber.C17
